@@ -16,6 +16,10 @@ import (
 
 func init() { jobs = append(jobs, job{props: []string{"C07"}, fn: genAcctMod}) }
 
+// acctmodSizeConst matches lnd's script size constants (P2WPKHSize, P2TRSize …)
+// but not the output size constants (P2WKHOutputSize …).
+var acctmodSizeConst = regexp.MustCompile(`^P2[A-Z]+Size$`)
+
 // acctmodModDir resolves the directory of a third-party module at the version pinned
 // in /repo/go.mod inside the module cache.
 func acctmodModDir(mod string) string {
@@ -103,7 +107,8 @@ func genAcctMod() {
 		return t == "$recv" || t == "$wt"
 	}
 	isClass := func(n *acctmodNorm, tag ast.Expr) bool {
-		return strings.HasSuffix(n.s(tag), ".Class()")
+		t := n.s(tag)
+		return strings.HasSuffix(t, ".Class()") || t == "$class"
 	}
 
 	// witnessType.witnessSize: witness type value -> size.
@@ -203,16 +208,22 @@ func genAcctMod() {
 	coCases, _ := acctmodFindCases(acct, findFunc(acct, "OutputWithFee.CloseOutputs"), 2, isClass)
 	for _, cc := range coCases {
 		calls := outputAdds(cc.body)
+		// the script size the dust limit is derived from: the single lnd
+		// `P2…Size` constant named in the case (argument of
+		// DustLimitForSize or a field of the data the helper returns)
 		dust := ""
+		nDust := 0
 		for _, st := range cc.body {
 			ast.Inspect(st, func(n ast.Node) bool {
-				if c, ok := n.(*ast.CallExpr); ok && len(c.Args) == 1 &&
-					acctmodConstName(c.Fun) == "DustLimitForSize" {
-
-					dust = intConst(ice, "lnd/input", acctmodConstName(c.Args[0]))
+				if sel, ok := n.(*ast.SelectorExpr); ok && acctmodSizeConst.MatchString(sel.Sel.Name) {
+					dust = intConst(ice, "lnd/input", sel.Sel.Name)
+					nDust++
 				}
 				return true
 			})
+		}
+		if nDust != 1 {
+			dust = ""
 		}
 		if len(calls) != 1 || dust == "" {
 			fail("CloseOutputs: case without one estimator call and a dust limit")
@@ -225,6 +236,21 @@ func genAcctMod() {
 	sort.Strings(rows)
 	if len(rows) == 0 {
 		fail("CloseOutputs: per-class output weights not found")
+	}
+	if co := findFunc(acct, "OutputWithFee.CloseOutputs"); co != nil {
+		found := false
+		fns := append([]*ast.FuncDecl{co}, acctmodCallees(acct, co)...)
+		for _, g := range fns {
+			ast.Inspect(g.Body, func(n ast.Node) bool {
+				if c, ok := n.(*ast.CallExpr); ok && acctmodConstName(c.Fun) == "DustLimitForSize" {
+					found = true
+				}
+				return true
+			})
+		}
+		if !found {
+			fail("CloseOutputs: no DustLimitForSize call")
+		}
 	}
 	l.p("/-- `OutputWithFee.CloseOutputs`: class -> (output size added, script size handed to DustLimitForSize) -/")
 	l.p("def closeOutputSwitch : List (String × Nat × Nat) := [%s]", strings.Join(rows, ", "))
@@ -346,7 +372,20 @@ func genAcctMod() {
 					exp = true
 				}
 			}
-			c := n.s(d.cond)
+			// the expiry condition proper: the conjuncts that do not merely
+			// select the account version (script family)
+			var parts []string
+			for _, part := range n.conjuncts(d.cond, 0) {
+				ps := n.s(part)
+				if strings.Contains(ps, ".Version") && !strings.Contains(ps, ".Expiry") &&
+					!strings.Contains(ps, ".State") {
+
+					continue
+				}
+				parts = append(parts, ps)
+			}
+			sort.Strings(parts)
+			c := strings.Join(parts, " && ")
 			if exp && !seen[c] {
 				seen[c] = true
 				conds = append(conds, c)
@@ -385,9 +424,71 @@ func genAcctMod() {
 			}
 		}
 	}
+	anyLt := false
+	for _, r := range lrows {
+		if !strings.HasSuffix(r, `, "")`) {
+			anyLt = true
+		}
+	}
+	if !anyLt {
+		lrows = nil // a case list over the witness type, but not the lock time one
+	}
+	if len(lrows) == 0 && sp != nil {
+		// the lock time may be computed by a helper written as early-return
+		// ifs: evaluate it for each witness type constant
+		expSet := map[string]bool{}
+		for _, cc := range ieCases {
+			for _, st := range cc.body {
+				if ret, ok := st.(*ast.ReturnStmt); ok && len(ret.Results) == 1 &&
+					exprString(ret.Results[0]) == "true" {
+
+					for _, e := range cc.consts {
+						expSet[acctmodConstName(e)] = true
+					}
+				}
+			}
+		}
+		for _, g := range acctmodCallees(acct, sp) {
+			n := acctmodNewNorm(g)
+			hasWt := false
+			for _, v := range n.params {
+				if v == "$wt" {
+					hasWt = true
+				}
+			}
+			if g.Recv != nil && len(g.Recv.List) == 1 && exprString(g.Recv.List[0].Type) == "witnessType" {
+				hasWt = true
+			}
+			if !hasWt || g.Type.Results == nil || len(g.Type.Results.List) != 2 ||
+				exprString(g.Type.Results.List[0].Type) != "uint32" {
+
+				continue
+			}
+			var rowsG []string
+			good := true
+			for _, c := range []string{"expiryWitness", "multiSigWitness", "expiryTaproot", "muSig2Taproot"} {
+				v, ok := acctmodEvalPerWt(g, c, expSet)
+				if !ok {
+					good = false
+					break
+				}
+				switch v {
+				case "$u32":
+					v = "best"
+				case "0":
+					v = "zero"
+				}
+				rowsG = append(rowsG, fmt.Sprintf("(%s, %q)", intConst(ace, "account", c), v))
+			}
+			if good {
+				lrows = rowsG
+				break
+			}
+		}
+	}
 	sort.Strings(lrows)
 	if len(lrows) == 0 {
-		fail("spendAccount lock time case list not found")
+		fail("spendAccount: lock time per witness type not found")
 	}
 	l.p("/-- `spendAccount`: witness type -> lock time (`best` = the best-height parameter, `zero`) -/")
 	l.p("def lockTimeSwitch : List (Nat × String) := [%s]", strings.Join(lrows, ", "))
